@@ -321,10 +321,11 @@ pub fn recompute_jobs(params: &BrotliEncoderParams, input: &[u8], t: usize) -> V
             let mut hasher: Hasher = UnionHasher::Uninit;
             brotli::enc::encode::HasherSetup(&mut alloc, &mut hasher, &mut local, &[], 0, 0, 0);
             let mut hs: Vec<Hasher> = vec![];
+            let mut stored_end = 0usize;
             for ti in 1..t {
-                let (lo, hi) = get_range(ti - 1, t, input.len());
+                let (_lo, hi) = get_range(ti - 1, t, input.len());
                 let overlap = hasher.StoreLookahead().wrapping_sub(1);
-                if hi - lo > overlap { hasher.BulkStoreRange(input, usize::MAX, if lo > overlap { lo - overlap } else { 0 }, hi - overlap); }
+                if hi > overlap && hi - overlap > stored_end { hasher.BulkStoreRange(input, usize::MAX, stored_end, hi - overlap); stored_end = hi - overlap; }
                 hs.push(hasher.clone_with_alloc(&mut alloc));
             }
             hs
